@@ -119,6 +119,7 @@ func (p *c11) check(rec *core.Recorder, class string, set *mt.TmplSet, ctx map[s
 	for k, v := range extraSrc {
 		srcs[k] = v
 	}
+	srcs = maybeLarge(rec, srcs)
 	canon := canonSrcs(srcs) + canonCtx(ctx)
 	rec.Eval(class, canon, true)
 	res := renderFresh(srcs, "main", ctxToGo(ctx), func(e *twig.Engine) { e.EnableSandbox(allowAll{}) })
